@@ -698,7 +698,13 @@ class UnionUnmarshaller(AbstractUnmarshaller[UnionT], tp.Generic[UnionT]):
         """
         for routine in self.ordered_routines:
             with contextlib.suppress(
-                ValueError, TypeError, SyntaxError, AttributeError
+                ValueError,
+                TypeError,
+                SyntaxError,
+                AttributeError,
+                ArithmeticError,
+                OSError,
+                re.error,
             ):
                 unmarshalled = routine(val)
                 return unmarshalled
